@@ -4,6 +4,7 @@
 #include <tlx/sort/parallel_mergesort.hpp>
 #include <atomic>
 #include <cstring>
+#include <deque>
 #include <fstream>
 #include <sys/wait.h>
 using namespace vf;
@@ -35,22 +36,30 @@ struct PElem {
 VF_DECOY_ORDER(PElem, key)
 struct PLess { bool operator()(const PElem& a, const PElem& b) const { vsched::access(&a, false); vsched::access(&b, false); return a.key < b.key; } };
 
-static void one(Out& out, const std::vector<long long>& keys, bool stable, int mwmsa, int threads, int oversampling, uint64_t seed, int strat, int pct_depth) {
+// iter: the kind of random access iterator the range is given as: 0 vector iterators, 1 reverse iterators over a vector (the sorted view is the reversed storage),
+// 2 iterators of a std::deque (not contiguous).  The sort must only use iterator arithmetic, never the address of an element as a position.
+static void one(Out& out, const std::vector<long long>& keys, bool stable, int mwmsa, int threads, int oversampling, uint64_t seed, int strat, int pct_depth, int iter = 0) {
     std::vector<PElem> v;
+    std::deque<PElem> dq;
     v.reserve(keys.size());
-    for (size_t i = 0; i < keys.size(); ++i) v.emplace_back(keys[i], (long long)i + 1);
+    const size_t n = keys.size();
+    if (iter == 0) for (size_t i = 0; i < n; ++i) v.emplace_back(keys[i], (long long)i + 1);
+    else if (iter == 1) for (size_t i = 0; i < n; ++i) v.emplace_back(keys[n - 1 - i], (long long)(n - i));
+    else for (size_t i = 0; i < n; ++i) dq.emplace_back(keys[i], (long long)i + 1);
     tlx::parallel_multiway_merge_oversampling = oversampling;
     vsched::clear_watches(); if (!v.empty()) vsched::watch(v.data(), v.data() + v.size());
     long live_before = g_live;
     g_acc.clear(); std::memset(g_locks, 0, sizeof(g_locks)); g_elem = sizeof(PElem);
-    g_vbeg = v.empty() ? nullptr : reinterpret_cast<const char*>(v.data()); g_vend = v.empty() ? nullptr : reinterpret_cast<const char*>(v.data() + v.size());
+    g_vbeg = (v.empty() || iter != 0) ? nullptr : reinterpret_cast<const char*>(v.data()); g_vend = (v.empty() || iter != 0) ? nullptr : reinterpret_cast<const char*>(v.data() + v.size());
 #ifndef NO_VSCHED
     vsched::set_observer([](int tid, int kind, int, long long, long long) { if (kind == vsched::K_UNLOCK) ++g_locks[tid & 63]; /* one explicit unlock per completed barrier.wait() */ });
 #endif
     vsched::Config cfg; cfg.seed = seed; cfg.strategy = strat; cfg.pct_depth = pct_depth; cfg.pct_steps = 400;
     auto sa = static_cast<tlx::MultiwayMergeSplittingAlgorithm>(mwmsa);
     vsched::Result res = vsched::run([&] {
-        if (stable) tlx::stable_parallel_mergesort(v.begin(), v.end(), PLess(), threads, sa);
+        if (iter == 1) { if (stable) tlx::stable_parallel_mergesort(v.rbegin(), v.rend(), PLess(), threads, sa); else tlx::parallel_mergesort(v.rbegin(), v.rend(), PLess(), threads, sa); }
+        else if (iter == 2) { if (stable) tlx::stable_parallel_mergesort(dq.begin(), dq.end(), PLess(), threads, sa); else tlx::parallel_mergesort(dq.begin(), dq.end(), PLess(), threads, sa); }
+        else if (stable) tlx::stable_parallel_mergesort(v.begin(), v.end(), PLess(), threads, sa);
         else tlx::parallel_mergesort(v.begin(), v.end(), PLess(), threads, sa);
     }, cfg);
     long live_after = g_live;
@@ -58,13 +67,16 @@ static void one(Out& out, const std::vector<long long>& keys, bool stable, int m
     std::string acc = "[";
     for (size_t i = 0; i < g_acc.size(); ++i) acc += std::string(i ? "," : "") + "[" + std::to_string(g_acc[i].tid) + "," + (g_acc[i].write ? "1" : "0") + "," + std::to_string(g_acc[i].pos) + "," + std::to_string(g_acc[i].phase) + "]";
     acc += "]";
-    std::vector<long long> ids; for (auto& e : v) ids.push_back(e.id);
+    std::vector<long long> ids;
+    if (iter == 1) for (auto it = v.rbegin(); it != v.rend(); ++it) ids.push_back(it->id);
+    else if (iter == 2) for (auto& e : dq) ids.push_back(e.id);
+    else for (auto& e : v) ids.push_back(e.id);
     std::string pt = "[";
     for (size_t i = 0; i < res.problems.size() && i < 3; ++i) pt += std::string(i ? "," : "") + "\"" + res.problems[i] + "\"";
     Ev e("sort"); e.arr("keys", keys).arr("out", ids).boolean("stable", stable).num("live_delta", live_after - live_before).num("problems", (long long)res.problems.size())
-        .raw("problem_text", pt + "]").boolean("deadlock", res.deadlock).num("mwmsa", mwmsa).num("threads", threads).num("oversampling", oversampling).num("strategy", strat);
+        .raw("problem_text", pt + "]").boolean("deadlock", res.deadlock).num("mwmsa", mwmsa).num("threads", threads).num("oversampling", oversampling).num("strategy", strat).num("iter", iter);
 #ifndef NO_VSCHED
-    if (g_acc.size() < 4000) e.raw("acc", acc);
+    if (g_acc.size() < 4000 && iter == 0) e.raw("acc", acc);
 #endif
     e.emit(out);
 }
@@ -91,6 +103,7 @@ static void child(const std::string& line, const char* outpath) {
     // more runs than std::sort's insertion-sort threshold (16): the sample of multisequence_partition is sorted by an unstable algorithm beyond that, so ties between
     // the runs' samples are only broken correctly if the code compares (value, run) pairs (round-3 seeded change, caught under one VERIF_SEED and missed under another
     // as long as thread counts above 16 were drawn at random): every input of at least 17 elements gets both splitting strategies with 17+ threads, stable
+    for (int iter = 1; iter <= 2; ++iter) one(out, keys, rnd(2), rnd(2), TH[rnd(9)], OS[rnd(3)], x, ST[rnd(4)], 2 + rnd(3), iter);
     if (keys.size() >= 17) {
         static const int TH2[] = {17, 20, 33};
         one(out, keys, true, 1, TH2[rnd(3)], OS[rnd(3)], x, ST[rnd(4)], 2 + rnd(3));
